@@ -1,0 +1,15 @@
+//go:build verif
+
+// Contracts for package dedupkey (property C12). Comment-only: read by /verif/bin/gsv, never compiled into the package.
+// Clause syntax: /verif/engine/contracts.go; method: /verif/DESIGN.md.
+
+package dedupkey
+
+//@ onlyfor C12
+
+//@ func github.com/ipld/go-ipld-prime/datamodel.Node.AsString
+//@   assumed
+//@   modifies nothing
+//@ func DecodeDedupKey
+//@   lenient
+//@   modifies alloc
